@@ -252,6 +252,7 @@ class Recorder:
         self.max_events = max_events
         self.calls_seen = 0
         self.steps_seen = 0
+        self.blind = False
         self._keep: list = []          # keeps observed chromosomes alive (stable identities)
         self._ids: dict[int, int] = {}
         self.notified: list[int] = []
@@ -359,6 +360,7 @@ class Recorder:
                     return orig(*args, **kwargs)
                 rec.calls_seen += 1
                 if len(rec.events) >= rec.max_events:
+                    rec.blind = True   # from here on archive calls go unrecorded
                     return orig(*args, **kwargs)
                 rec._depth += 1
                 try:
@@ -425,15 +427,17 @@ class Recorder:
             else:
                 s["id"] = nxt + k
 
-    def recheck(self) -> None:
+    def recheck(self, final: bool = False) -> None:
         """Re-execute every archived test (a clone, marked as changed, result dropped) and
-        record the view with the re-computed `covers`."""
-        if len(self.events) >= 4 * self.max_events:
+        record the view with the re-computed `covers`.  Once the event budget is used up archive
+        calls go unrecorded: no further step re-checks, and the view found at the end of the run is
+        marked (n = -1) as one that unrecorded archive calls may have produced."""
+        if self.blind and not final:
             return
         pre = self.project()
         pre_cvs = self.cvs()
         if self.changed(pre, pre_cvs):
-            self._emit("observe", pre, cvs=pre_cvs)
+            self._emit("observe", pre, cvs=pre_cvs, n=-1 if self.blind else 0)
         post = self.project()
         if self.is_mio:
             for (_, g), pop in zip(self.goals, post["pops"]):
@@ -555,9 +559,15 @@ def run_search(job: dict) -> dict:
         rec.install()
         if job.get("every_step"):
             rec.install_step_hooks()
-        alg.generate_tests()
-        rec.recheck()
+        aborted = ""
+        try:
+            alg.generate_tests()
+        except (AssertionError, KeyError, IndexError, AttributeError, TypeError, ValueError) as ex:
+            # the search tripped over its own state; what was recorded until then is judged
+            aborted = f"{type(ex).__name__}: {ex}"[:200]
+        rec.recheck(final=True)
     tr = rec.trace()
+    tr["aborted"] = aborted
     tr["calls_seen"] = rec.calls_seen
     tr["steps_seen"] = rec.steps_seen
     tr["goals"] = [str(g) for g in rec.fns]
